@@ -137,6 +137,8 @@ def evaluate(s, twins, stl, args, dipL, dipTL, dip, dipT, meta, payload, label, 
 
 
 def run(ctx):
+    if ctx.replay:
+        return hp.replay(ctx, "Check_C11")
     quick = ctx.tier == "quick"
     rng = ctx.rng
     ctx.rule = ("(world in a random orientation, random dyadic energies/prefactors, random NON-symmetric integer dipoles): "
@@ -147,7 +149,7 @@ def run(ctx):
     setups = QUICK if quick else QUICK + MORE
     norient, nrep = (1, 4) if quick else (2, 6)
     dcases, dmetas, pcases, pmetas = [], [], [], []
-    pre_violations = []
+    pre_violations, solver_refusals = [], []
     for name, chem, shell in setups:
         for ori in range(norient):
             s = hp.interstitial(name, chem, shell, rng)
@@ -156,7 +158,7 @@ def run(ctx):
             strains = hp.strains(dim)
             stl = [[nm, E.tolist()] for nm, E in strains]
             twins = [(nm, E, hp.StrainedTwin(s, E, +1), hp.StrainedTwin(s, E, -1)) for nm, E in strains]
-            label = "%s|chem%d|shell%d" % (name, chem, shell)
+            label = "%s|chem%d|shell%d" % (name, chem, s.shell)
             for rep in range(nrep):
                 d = calc.interstitial_data(s, rng, 0, 2 if rep % 2 == 0 else 4)
                 args = calc.interstitial_args(d)
@@ -165,15 +167,21 @@ def run(ctx):
                 dipTL = [hp.int_dipole(rng, dim) for _ in range(s.Njump)]
                 dip = [np.dot(Alat, np.dot(P, Alat.T)) for P in dipL]
                 dipT = [np.dot(Alat, np.dot(P, Alat.T)) for P in dipTL]
-                payload = {"world": name, "chem": chem, "shell": shell, "data": d, "lattice": Alat.tolist(),
+                payload = {"world": name, "chem": chem, "shell": s.shell, "data": d, "lattice": Alat.tolist(),
                            "site_dipoles_lattice": [P.tolist() for P in dipL],
                            "jump_dipoles_lattice": [P.tolist() for P in dipTL]}
+                vb = np.asarray(s.calc.VectorBasis, dtype=float).reshape(-1, dim)
                 meta = dict(label=label, name=name, chem=chem, payload=payload, ngroup=len(s.crys.G), nv=s.calc.NV,
+                            real=(label, ori), dim=dim, vbrank=int(np.linalg.matrix_rank(vb, tol=1e-8)) if vb.size else 0,
                             orders=[t[2].ngroup for t in twins])
                 try:
                     evaluate(s, twins, stl, args, dipL, dipTL, dip, dipT, meta, payload, label, name, chem, ori, rep, quick,
                              pcases, pmetas, dcases, dmetas, pre_violations)
-                except (ValueError, OverflowError, FloatingPointError, np.linalg.LinAlgError) as ex:
+                except np.linalg.LinAlgError as ex:
+                    # the calculator itself refuses the network (singular projected rate matrix): whether it may is the
+                    # subject of C02, not of the derivative outputs; counted in the evidence, never silently dropped
+                    solver_refusals.append("%s#%d.%d: %s" % (label, ori, rep, ex))
+                except (ValueError, OverflowError, FloatingPointError) as ex:
                     pre_violations.append(("clause|outputs_are_finite|%s|chem%d" % (name, chem),
                                            "%s: an output cannot be transported (%s: %s)" % (label, type(ex).__name__, ex),
                                            payload))
@@ -187,6 +195,13 @@ def run(ctx):
     for key, what, payload in pre_violations:
         ctx.violation(key, what, payload)
     mismatch, nbreaking, reversing, strained_orders = 0, 0, 0, {}
+    # TLC's classification of every strain component of a realisation: does it keep the definitional point group?
+    keeps = {}
+    for i, m in enumerate(metas):
+        info = infos.get(i, {})
+        if m["kind"] == "dipoles" and info.get("strainstab"):
+            keeps.setdefault(m["real"], {nm: order == info["grouporder"]
+                                         for (nm, E), order in zip(hp.strains(m["dim"]), info["strainstab"])})
     for i, m in enumerate(metas):
         info = infos.get(i, {})
         names = sorted(set(hp.expand(f, m["names"], SUBCLAUSES) for f in fails.get(i, [])))
@@ -212,6 +227,14 @@ def run(ctx):
             head, _, sub = n.partition("/")
             base, _, place = head.partition("@")
             byclause.setdefault(base + ("/" + sub if sub else ""), []).append(place)
+        if "elastodiffusion_is_strain_derivative" in byclause:
+            # split by TLC's strain classification, so that a finding about symmetry-breaking strains with a site vector
+            # basis spanning several directions cannot mask a failure under a symmetry-keeping strain or elsewhere
+            kp = keeps.get(m["real"], {})
+            for nm in byclause.pop("elastodiffusion_is_strain_derivative"):
+                cls = {True: "symmetry_keeping_strain", False: "symmetry_breaking_strain"}.get(kp.get(nm), "strain")
+                byclause.setdefault("elastodiffusion_is_strain_derivative|%s+vector_basis_rank%d" % (cls, m["vbrank"]),
+                                    []).append(nm)
         for clause, places in sorted(byclause.items()):
             ctx.violation("clause|%s|%s|chem%d|%s" % (clause, m["name"], m["chem"], "+".join(sorted(set(places)))),
                           "%s: TLC rejects %s at %s (definitional group order %s, library %d; vector basis %d; tolerance "
@@ -219,6 +242,9 @@ def run(ctx):
                                                info.get("grouporder") or "n/a", m["ngroup"],
                                                m["nv"], TOL_DERIV if m["kind"] == "deriv" else TOL_POP, cases[i]["scale"]),
                           {"meta": m["payload"], "failed": names, "case": cases[i]})
+    ctx.info("calculator_refused_network_LinAlgError", solver_refusals)
+    if solver_refusals:
+        ctx.assumptions.append("%d evaluations skipped because the calculator raised LinAlgError" % len(solver_refusals))
     ctx.info("definitional_vs_library_group_order_mismatches", mismatch)
     ctx.info("symmetry_breaking_strains", nbreaking)
     ctx.info("jump_classes_with_reversing_operations", reversing)
